@@ -859,6 +859,15 @@ func parseTypeSystemDefinition(parser *Parser) (ast.Node, error) {
 		if keywordToken, err = lookahead(parser); err != nil {
 			return nil, err
 		}
+		// Only type definitions and directive definitions take a description:
+		// after one, the keyword of any other definition is the token that
+		// cannot continue the document.
+		if keywordToken.Kind == lexer.NAME {
+			switch keywordToken.Value {
+			case "query", "mutation", "subscription", "fragment", "schema", "extend":
+				return nil, unexpected(parser, keywordToken)
+			}
+		}
 	}
 
 	if keywordToken.Kind != lexer.NAME {
